@@ -22,7 +22,10 @@ Two families instantiate the outcome classes with different VALUE CLASSES (vclas
                                   the value handed to the step that fails:
                                     seqs, dict_info, str path                    name their source
                                     dict_info_none, dict_plain, bytes            do not
-                                  STEP TYPING: step 3 is c14_v2 (concretely typed) or one of
+  c14_load + c14_fn + c14_g2      as the first, but step 2 is a FUNCTION style app constructed with a
+                                  list and a dict argument that its body changes in place; its output
+                                  carries what the call found in them (sequence "arg")
+                                  STEP TYPING (value family): step 3 is c14_v2 (concretely typed) or one of
                                   c14_v2s_* / c14_v2i_* hinted SerialisableType / IdentifierType,
                                   i.e. accepting anything, whose main would (attr) / would not
                                   (safe) raise when handed a NotCompleted
@@ -146,7 +149,7 @@ class c14_load:
 
 
 def _trail(seqs):
-    return [1] + sorted(int(n[1:]) for n in seqs.names if n.startswith("g"))
+    return [1] + sorted(int(n[1:]) for n in seqs.names if n.startswith("g") and n[1:].isdigit())
 
 
 def _extend(seqs, step):
@@ -187,6 +190,40 @@ class c14_g2:
 
     def main(self, seqs: UnalignedSeqsType) -> T:
         return _seq_step(self, "c14_g2", 3, seqs)
+
+
+# ------------------------------------------- function style step with mutable arguments
+ARG0_TICKETS = [1, 2]
+ARG0_CFG = {"calls": 0}
+
+
+def encode_arg(head, left, calls):
+    """what a call found in its mutable arguments, as a (valid DNA) sequence of the output"""
+    return "A" * head + "C" * left + "G" * calls + "T"
+
+
+@define_app
+def c14_fn(seqs: UnalignedSeqsType, plan, vclass, tickets: list, cfg: dict = None) -> T:
+    """step 2 as a FUNCTION style app constructed with a list (positional) and a dict (keyword)
+    which it changes in place while it works: it takes the first ticket and counts the call.
+    define_app hands every call the arguments as constructed, so no record can see what an
+    earlier record did to them (ComposedApp.tla, ArgPristine)"""
+    found = encode_arg(tickets[0] if tickets else 0, len(tickets), cfg["calls"])
+    tickets.pop(0)  # IndexError once the tickets are used up
+    cfg["calls"] += 1
+    source = get_data_source(seqs)
+    name = get_unique_id(source)
+
+    def ok():
+        data = seqs.to_dict()
+        data["g2"] = "AC"
+        data["arg"] = found
+        return make_unaligned_seqs(data, moltype="dna", info={"source": seqs.info.source})
+
+    return _enact(
+        "c14_fn", 2, plan, name, seqs, source, ok,
+        lambda: _wrong_value(vclass.get(name, "dict_source"), name, source, 2, _trail(seqs)),
+    )
 
 
 # --------------------------------------------------------------------- value family
@@ -322,7 +359,7 @@ c14_v2i_safe = _make_step3("c14_v2i_safe", IdentifierType, True)
 STEP3 = {"typed": c14_v2, "ser_attr": c14_v2s_attr, "ser_safe": c14_v2s_safe, "id_attr": c14_v2i_attr, "id_safe": c14_v2i_safe}
 
 STEP_OF_ORIGIN = {
-    "c14_load": 1, "c14_g1": 2, "c14_g2": 3,
+    "c14_load": 1, "c14_g1": 2, "c14_g2": 3, "c14_fn": 2,
     "c14_vload": 1, "c14_v1": 2, "c14_v2": 3,
     "c14_v2s_attr": 3, "c14_v2s_safe": 3, "c14_v2i_attr": 3, "c14_v2i_safe": 3,
     "write_seqs": 4, "write_json": 4, "write_db": 4,
